@@ -305,6 +305,9 @@ def run(chk):
         "exhaustive scope: 2 names x 2 label names x 2 values, label lists up to 3 (thorough 4) with the '8' threshold shrunk to "
         "3 (and 4); the real threshold is reached by the padded families (lengths 3..9) and the random keys (0..12 labels)",
     ]
+    if chk.tier == "thorough":
+        # beyond TLC's bounds: inductive invariant by Apalache (any sets of <= 8 processes) + TLAPS proof (any size); recorded, never decides
+        vlib.run_unbounded(chk, "keyhashmemo")
     chk.cov["rule"] = ("TLC: every key, ordered pair and triple of each scope (states = keys + ordered pairs; the triple laws quantify "
                        "over every third key inside the invariant); all interleavings of the get_hash/clone steps. Implementation: "
                        "every exported key built through every public construction path, all pairs compared on the real Key (==, !=, "
